@@ -516,7 +516,18 @@ fn run_world_op(op: &Value, ctx: &Ctx) -> Outcome {
         "mkdir" => std::fs::create_dir_all(op["path"].as_str().unwrap()),
         "mkfile" => {
             // {"path":..., "key","val","chunks","w", "raw":"text", "mode":0o444, "mt":[s,ns], "at":[s,ns]}
-            let path = Path::new(op["path"].as_str().unwrap());
+            // "name_hex": extra raw bytes appended to the file name (names that are not valid UTF-8)
+            let pbuf: PathBuf = match op["name_hex"].as_str() {
+                Some(hx) => {
+                    use std::os::unix::ffi::OsStringExt;
+                    let mut b = op["path"].as_str().unwrap().as_bytes().to_vec();
+                    let raw: Vec<u8> = (0..hx.len() / 2).filter_map(|i| u8::from_str_radix(&hx[2 * i..2 * i + 2], 16).ok()).collect();
+                    b.extend_from_slice(&raw);
+                    PathBuf::from(std::ffi::OsString::from_vec(b))
+                }
+                None => PathBuf::from(op["path"].as_str().unwrap()),
+            };
+            let path = pbuf.as_path();
             if let Some(parent) = path.parent() {
                 std::fs::create_dir_all(parent)?;
             }
@@ -598,7 +609,10 @@ fn stamp(path: &Path, op: &Value) -> std::io::Result<()> {
     }
     // filetime's path API opens the file; use utimensat on the path directly so
     // that read-only files owned by us can be stamped.
-    let c = std::ffi::CString::new(path.to_string_lossy().as_bytes()).unwrap();
+    let c = {
+        use std::os::unix::ffi::OsStrExt;
+        std::ffi::CString::new(path.as_os_str().as_bytes()).unwrap()
+    };
     let to_ts = |t: Option<FileTime>| match t {
         Some(t) => libc::timespec { tv_sec: t.unix_seconds(), tv_nsec: t.nanoseconds() as i64 },
         None => libc::timespec { tv_sec: 0, tv_nsec: libc::UTIME_OMIT },
@@ -673,6 +687,15 @@ fn main_traced(spec: Value) {
         callrec["p"] = json!(pid);
         callrec["opi"] = json!(i + 1);
         callrec["world"] = json!(is_world_op(&api));
+        // the kind of handle this operation goes through ("plain" | "sharded" | "stack" | "ro")
+        let hspec = if op["cache"].is_object() {
+            &op["cache"]
+        } else if let Some(hs) = spec["handles"].as_array() {
+            &hs[(op["h"].as_u64().unwrap_or(0) as usize).min(hs.len().saturating_sub(1))]
+        } else {
+            &spec["cache"]
+        };
+        callrec["hk"] = hspec["kind"].clone();
         emit(&callrec);
         if let Some(d) = op["draws"].as_array() {
             kismet_cache::verif::script_u64(d.iter().map(u64_of));
